@@ -34,6 +34,9 @@ NEG = {  # seeded defect -> invariants that may reject it
 }
 
 
+SYNTHETIC_BAD_TRACE = "".join(json.dumps(dict(seq=i + 1, ev=ev, pool="runtime", buf=b, g=1, r=1, w=1, dirty=False, err="")) + "\n"
+                              for i, (ev, b) in enumerate([("begin", 0), ("acquire", 1), ("existing", 1), ("release", 1), ("flush", 1), ("end", 0)]))
+
 def require_hooks():
     """The pool hooks of hooks/C10-pool.diff must be present in the repository under test."""
     need = [("runtime/verifhook_on.go", "VerifPoolHook"), ("runtime/verifhook_on.go", "VerifBufferState"),
@@ -266,14 +269,11 @@ def main():
     ck.set("pool_event_counts", rep["cnt"])
 
     # trace self-test: Put before the last use must be rejected by the trace spec
-    idx = next(i for i in range(len(evs) - 1) if evs[i]["ev"] == "flush" and evs[i + 1]["ev"] == "release")
-    start = max(i for i in range(idx) if evs[i]["ev"] == "begin")     # renders are sequential: nothing is held at a begin
-    mut = lines[start:idx] + [lines[idx + 1], lines[idx]] + lines[idx + 2: idx + 200]
     st = vlib.tlc("TraceRenderPool", "t.cfg", workers=1, timeout=300,
-                  files={"t.cfg": cfg("RenderPool_trace.cfg", NB="= %d" % nb), "trace.ndjson": "".join(mut)})
+                  files={"t.cfg": cfg("RenderPool_trace.cfg", NB="= 1"), "trace.ndjson": SYNTHETIC_BAD_TRACE})
     srep = st.tagged("TRACE")
-    if not srep or not any(v["kind"] == "ExclusiveBuffer.UseAfterRelease" for v in srep[0]["viol"]):
-        raise vlib.InfraError("trace self-test: a trace with Put before the flush was accepted")
+    if not srep or [v["kind"] for v in srep[0]["viol"]] != ["ExclusiveBuffer.UseAfterRelease"]:
+        raise vlib.InfraError("trace self-test: a trace with Put before the flush was not rejected as UseAfterRelease")
     ck.set("trace_selftest", "Put-before-flush trace rejected")
 
     ck.set("traces_validated_against_impl", total["renders"] + sfx["renders"])
